@@ -3,8 +3,8 @@
 # through the build overlay (never touching /repo) and records the outcome in meta.json / README.md.
 cd /verif
 declare -A CROSS
-CROSS[C04-c]="C03"; CROSS[C10-d]="C18"; CROSS[C17-d]="C16"; CROSS[C07-c]="C10"; CROSS[C01-b]="C06"
-for d in seeded/*/; do
+CROSS[C04-c]="C03"; CROSS[C10-d]="C18"; CROSS[C17-d]="C16"; CROSS[C07-c]="C10"; CROSS[C01-b]="C06"; CROSS[C01-f]="C20"; CROSS[C20-f]="C16"; CROSS[C07-e]="C02"; CROSS[C13-e]="C16"; CROSS[C05-f]="C06"
+for d in ${SEEDS:-seeded/*/}; do
   n=$(basename $d)
   [ -f $d/meta.json ] || continue
   ok=$(python3 -c "
@@ -14,9 +14,9 @@ print(int(bool(m.get('applies') in ('ok','3way') and m.get('builds') and m.get('
   res=""
   if [ "$ok" = 1 ]; then
     for ck in $id ${CROSS[$n]}; do
-      out=$(timeout 1800 tools/trymutant.sh /verif/$d/patch.diff $ck 2>&1)
+      out=$(timeout 1800 ${TRY:-tools/trymutant.sh} /verif/$d/patch.diff $ck 2>&1)
       sigs=$(echo "$out" | grep -o "^VIOLATION property=[A-Z0-9]* replay=[^ ]* sig=[^ ]*" | sed 's/.*sig=//' | sort -u | head -4 | paste -sd',')
-      if echo "$out" | grep -q "^VIOLATION"; then res="$res $ck:DETECTED($sigs)"; elif echo "$out" | grep -q "HARNESS ERROR"; then res="$res $ck:HARNESS-ERROR"; else res="$res $ck:missed"; fi
+      if echo "$out" | grep -q "^VIOLATION"; then res="$res $ck:DETECTED($sigs)"; elif echo "$out" | grep -q "^$ck quick: .*violations=[1-9]"; then res="$res $ck:DETECTED(see-run)"; elif echo "$out" | grep -q "^$ck quick: .*violations=0"; then res="$res $ck:missed"; else res="$res $ck:HARNESS-ERROR"; fi
     done
   else
     res="not-kept"
